@@ -55,33 +55,42 @@ func sparseFeatures(c *eng.Ctx) {
 // ---------------------------------------------------------------- C03: paginated scans
 
 func c03Profile(tier string) *eng.Profile {
-	keys := []string{"a", "aa", "ab", "b"}
+	return c03ProfileFor(tier, "paging", []string{"a", "aa", "ab", "b"}, []string{"", "a", "b"}, false)
+}
+
+// c03BytesProfile: keys and prefixes made of the extreme byte values (0xff, 0x00), where "the
+// keys with this prefix" cannot be computed by bumping the last byte of the prefix.
+func c03BytesProfile(tier string) *eng.Profile {
+	return c03ProfileFor(tier, "paging-bytes", []string{`a\xff`, `a\xff\x00`, `\xff`, `\xff\xff`}, []string{`a\xff`, `\xff`, `a`}, true)
+}
+
+func c03ProfileFor(tier, name string, keys, prefixes []string, esc bool) *eng.Profile {
 	var ops []core.Op
 	for _, k := range keys {
 		ops = append(ops,
-			up(core.Call{F: "Put", B: "b", K: k, V: "x"}),
-			up(core.Call{F: "PutTS", B: "b", K: k, V: "t", TTL: 5, TS: -4}),
-			up(core.Call{F: "Delete", B: "b", K: k}),
+			up(core.Call{F: "Put", B: "b", K: k, V: "x", Esc: esc}),
+			up(core.Call{F: "PutTS", B: "b", K: k, V: "t", TTL: 5, TS: -4, Esc: esc}),
+			up(core.Call{F: "Delete", B: "b", K: k, Esc: esc}),
 		)
 	}
 	ops = append(ops, core.Op{Kind: "tick"}, core.Op{Kind: "reopen"})
 	var qs []core.Call
 	n := len(keys)
-	for _, pre := range []string{"", "a", "b"} {
+	for _, pre := range prefixes {
 		for off := 0; off <= n+1; off++ {
 			for lim := 1; lim <= n+1; lim++ {
-				qs = append(qs, core.Call{F: "PrefixScan", B: "b", K: pre, I: off, J: lim})
+				qs = append(qs, core.Call{F: "PrefixScan", B: "b", K: pre, I: off, J: lim, Esc: esc})
 			}
 		}
 		for _, re := range []string{".*", "a$"} {
 			for lim := 1; lim <= n+1; lim++ {
-				qs = append(qs, core.Call{F: "PrefixSearchScan", B: "b", K: pre, Re: re, I: 0, J: lim})
+				qs = append(qs, core.Call{F: "PrefixSearchScan", B: "b", K: pre, Re: re, I: 0, J: lim, Esc: esc})
 			}
 		}
 		// outside the statement (limit 0): only "ascending live prefixed keys" is checked
-		qs = append(qs, core.Call{F: "PrefixScan", B: "b", K: pre, I: 0, J: 0})
+		qs = append(qs, core.Call{F: "PrefixScan", B: "b", K: pre, I: 0, J: 0, Esc: esc})
 	}
-	p := &eng.Profile{ID: "C03", Name: "paging",
+	p := &eng.Profile{ID: "C03", Name: name,
 		Cfgs:  []core.Cfg{{Mode: core.KV, Seg: 100}, {Mode: core.K, Seg: 100}, {Mode: core.S, Seg: 100}},
 		Ops:   func(core.Cfg) []core.Op { return ops },
 		Obs:   func(core.Cfg) []core.Call { return qs },
@@ -222,6 +231,7 @@ func init() {
 	profileBuilders = append(profileBuilders, func(tier string) {
 		Register(c02Profile(tier))
 		Register(c03Profile(tier))
+		Register(c03BytesProfile(tier))
 		Register(c04Profile(tier))
 	})
 	Registry["C02"] = func(r *Run) {
@@ -232,12 +242,14 @@ func init() {
 		// many transactions per segment: inner nodes in the on-disk key tree and transaction-id tree
 		runKVLong(r, "C02", []core.Cfg{{Mode: core.S, Seg: 392}, {Mode: core.S, Seg: 600}, {Mode: core.S, RW: core.M, Start: core.M, Seg: 410}})
 		runValues(r, "C02", false, []int{core.S})
+		r.Explore(c01BytesProfile(r.Tier, "C02"))
 	}
 	Registry["C03"] = func(r *Run) {
-		r.Rule = "every sequence of <=depth ops over {put,expiring put,delete} x 4 prefixed keys + tick + reopen in KV, key-only and sparse mode; in every reached state every PrefixScan(prefix,offset,limit) with offset 0..n+1, limit 1..n+1 and every PrefixSearchScan(prefix,re,0,limit) is compared with 'live prefixed keys, skip offset, take limit'"
+		r.Rule = "every sequence of <=depth ops over {put,expiring put,delete} x 4 prefixed keys + tick + reopen in KV, key-only and sparse mode; in every reached state every PrefixScan(prefix,offset,limit) with offset 0..n+1, limit 1..n+1 and every PrefixSearchScan(prefix,re,0,limit) is compared with 'live prefixed keys, skip offset, take limit'; the same over keys and prefixes made of the extreme byte values (a\\xff, a\\xff\\x00, \\xff, \\xff\\xff)"
 		r.Assume = []string{"limit=0 and the returned offset value are outside the statement and only checked for 'ascending live prefixed keys'"}
 		r.Required = []string{"tick", "reopen", "delete", "dead-key-among-live"}
 		r.Explore(c03Profile(r.Tier))
+		r.Explore(c03BytesProfile(r.Tier))
 	}
 	Registry["C04"] = func(r *Run) {
 		r.Rule = "every sequence of <=depth ops writing 4 adversarially named buckets ('', 'a', 'ab', 'b' with keys 'b','bc','c': coinciding bucket+key concatenations) for KV, list, set and sorted set; oracle 1: a write to bucket A leaves all reads of other buckets and other structures unchanged (observation before vs after the op); oracle 2: per-bucket reference models"
